@@ -6,7 +6,7 @@ from ..std import conc
 from ..strings import BStr, Buf, utf8_len
 from .. import chartab
 
-R_BY_WIDTH = {2: [0xE9, 0xC9, 0xDF, 0x130, 0x661, 0xA0], 3: [0x212A, 0x2028], 4: [0x1F600]}
+R_BY_WIDTH = {2: [0xE9, 0xC9, 0xDF, 0x130, 0x661, 0xA0], 3: [0x212A, 0x2028, 0xFEFF], 4: [0x1F600]}
 
 
 # character classes: a partition of ASCII ∪ R; every symbolic character forks over them (or is pinned to one by the
